@@ -177,3 +177,23 @@ Theorem C09_big_number_refuted :
   v_show Pypi.Entry.v (list_ascii_of_string "9223372036854775808") = None.
 Proof. exact Pypi.SpecFacts.pypi_big_number_refuted. Qed.
 Print Assumptions C09_big_number_refuted.
+
+(* ====== ties to the source: BEGIN (written by bin/mkties) ====== *)
+(* The Go functions named here are translated into Gallina from /repo's source on every run
+   (tools/gen/code.go -> Gen/Code/<Eco>.v); Tie/<Eco>.v, Tie/<Eco>Range.v prove each translation equal to the
+   model the theorems above speak about.  If the code changes so that a tie no longer holds,
+   this file no longer checks. *)
+From Verif.Tie Require Pypi.
+Definition C09_tie_pypi_compareInt := Verif.Tie.Pypi.tie_pypi_compareInt.
+Print Assumptions C09_tie_pypi_compareInt.
+Definition C09_tie_pypi_normalizePrereleaseType := Verif.Tie.Pypi.tie_pypi_normalizePrereleaseType.
+Print Assumptions C09_tie_pypi_normalizePrereleaseType.
+Definition C09_tie_pypi_comparePrereleases := Verif.Tie.Pypi.tie_pypi_comparePrereleases.
+Print Assumptions C09_tie_pypi_comparePrereleases.
+Definition C09_tie_pypi_comparePostReleases := Verif.Tie.Pypi.tie_pypi_comparePostReleases.
+Print Assumptions C09_tie_pypi_comparePostReleases.
+Definition C09_tie_pypi_compareDevReleases := Verif.Tie.Pypi.tie_pypi_compareDevReleases.
+Print Assumptions C09_tie_pypi_compareDevReleases.
+Definition C09_tie_pypi_Version_Compare := Verif.Tie.Pypi.tie_pypi_Version_Compare.
+Print Assumptions C09_tie_pypi_Version_Compare.
+(* ====== ties to the source: END ====== *)
